@@ -72,6 +72,10 @@ func (p *MACPayload) UnmarshalBinary(uplink bool, data []byte) error {
 		return errors.New("lorawan: at least 7 bytes needed to decode FHDR")
 	}
 
+	// a frame without FPort / FRMPayload must not keep those of a previous decode
+	p.FPort = nil
+	p.FRMPayload = nil
+
 	// unmarshal FCtrl so we know the FOptsLen
 	if err := p.FHDR.FCtrl.UnmarshalBinary(data[4:5]); err != nil {
 		return err
